@@ -296,7 +296,7 @@ Peer == Strict \cup {<<"c1", "c1">>, <<"c1", "c2">>, <<"c1", "c3">>, <<"c1", "x"
 \* key bits of the named certificate (anybody can compute it), "digestkl" = DigestSha256 with a key locator,
 \* "wrongtype" = a signature of another algorithm than the named certificate's key (ECDSA under an RSA key, ...).
 \* None of them is a signature that verifies under the certificate's public key: all must be rejected.
-\* (Interpretation: a validator call that raises ValueError instead of returning is counted as a rejection.)
+\* A validator call that raises instead of returning is neither verdict: the executor reports it (raised:<Exception>).
 LinkDevs == {"forged", "subst", "nokl", "digest", "hmac", "unknownsig", "hmacpub", "digestkl", "wrongtype"}
 CertDevs == {"shape", "absent", "nack", "timeout"}         \* at links whose signer is a fetched certificate, 1..d-1
 Params(maxd) ==
